@@ -76,3 +76,29 @@ package fai
 //@   ensures[C19] @content forall j in 0..result0 :: b[j] == fileByte(s.r, basePos(s.Record, old(s.cur) + j))
 //@   ensures[C19] @filled result1 == nil ==> result0 == len(b)
 //@   ensures[C19] @frame s.Record == old(s.Record) && s.r == old(s.r) && s.end == old(s.end)
+
+// File.Seq and File.SeqRange: the handle they return covers exactly the
+// requested part of the indexed record and satisfies what Seq.Read requires of
+// its cursor (0 <= cur <= end <= Length); a range outside the record and an
+// unknown name are refused.
+//@ trusted func ext:errors.New
+//@   ensures result != nil
+
+//@ func File.Seq
+//@   mode int
+//@   props C19
+//@   terminates
+//@   requires f != nil
+//@   ensures[C19] @known has(f.Index, name) ==> (result1 == nil && result0 != nil && result0.Record == f.Index[name] && result0.r == f.r &&
+//@       result0.cur == 0 && result0.start == 0 && result0.end == f.Index[name].Length)
+//@   ensures[C19] @unknown !has(f.Index, name) ==> (result0 == nil && result1 != nil)
+
+//@ func File.SeqRange
+//@   mode int
+//@   props C19
+//@   terminates
+//@   requires f != nil
+//@   ensures[C19] @ok result1 == nil ==> (result0 != nil && has(f.Index, name) && result0.Record == f.Index[name] && result0.r == f.r &&
+//@       result0.cur == start && result0.start == start && result0.end == end && 0 <= start && start <= end && end <= f.Index[name].Length)
+//@   ensures[C19] @refused result1 != nil ==> result0 == nil
+//@   ensures[C19] @complete (has(f.Index, name) && 0 <= start && start <= end && end <= f.Index[name].Length) ==> result1 == nil
